@@ -129,6 +129,12 @@ impl RegionMetadata {
         regions
             .mmap()
             .flush_async_range(index * SIZE_OF_REGION_METADATA, SIZE_OF_REGION_METADATA)?;
+        #[cfg(feature = "verif")]
+        crate::verif::emit(&crate::verif::Event::FlushAsync {
+            file: crate::verif::FileId::Regions,
+            off: index * SIZE_OF_REGION_METADATA,
+            len: SIZE_OF_REGION_METADATA,
+        });
         state.set_is_clean();
         Ok(true)
     }
